@@ -360,7 +360,7 @@ def build_res(al, p):
             files["ns.html"] = {"body": [ndef]}
         else:
             # the imported def is one the namespace's template INHERITS: '*' does not cover it, the explicit name does
-            files["ns.html"] = {"inherit": "nsbase.html", "body": [["def", "own" + al.sfx, "", [T("own")]]]}
+            files["ns.html"] = {"inherit": "nsbase.html", "body": [["def", "own_of_ns", "", [T("own")]]]}
             files["nsbase.html"] = {"body": [ndef]}
     ctx = {}
     if "ctx" in binds:
